@@ -159,6 +159,8 @@ func (se *ScriptEnv) transform(req, reply []byte) ([]byte, error) {
 		return []byte{}, nil
 	case "garbage:rmcp":
 		return []byte{6, 0, 0xff, 7}, nil
+	case "garbage:short":
+		return []byte{6, 0, 0xff, 7, 6, 0xc0, 1}, nil // RMCP + a session header cut after 3 bytes
 	case "garbage:noise":
 		return []byte{0x13, 0x37, 0xde, 0xad, 0xbe, 0xef, 0x00, 0x11, 0x22, 0x33, 0x44, 0x55, 0x66, 0x77, 0x88, 0x99, 0xaa}, nil
 	case "garbage:chk":
@@ -176,6 +178,35 @@ func (se *ScriptEnv) transform(req, reply []byte) ([]byte, error) {
 			return sess.Wrap([]byte{0x81, 0x1c, 0x63, 0x20, 0x04}, refbmc.WrapOpts{}), nil
 		}
 		return []byte{6, 0, 0xff, 7, 6}, nil
+	case "stray:othercmd":
+		// a well-formed (in-session: authentic) response to a different command
+		if last := se.BMC.Last(); last != nil {
+			m := refbmc.BuildRsp(0x81, 0x07, 0, 0x20, last.RqSeq, 0, 0x3e, 0, []byte{0xde, 0xad})
+			if sess != nil && sess.Active && last.Kind == "session-ipmi" {
+				return sess.Wrap(m, refbmc.WrapOpts{}), nil
+			}
+			return refbmc.RMCP(refbmc.SessHdr(0, 0, 0, m)), nil
+		}
+		return nil, nil
+	case "unauth":
+		// the right response, but unauthenticated and in the clear
+		if last := se.BMC.Last(); last != nil && sess != nil && sess.Active {
+			return sess.Wrap(refbmc.RespMsg(last, 0, st.okBody), refbmc.WrapOpts{NoAuthFlag: true, DropTrailer: true, NoEncrypt: true}), nil
+		}
+		return nil, nil
+	case "othersid":
+		if last := se.BMC.Last(); last != nil && sess != nil && sess.Active {
+			other := sess.ConsoleSID ^ 0x00ff0000
+			return sess.Wrap(refbmc.RespMsg(last, 0, st.okBody), refbmc.WrapOpts{SID: &other}), nil
+		}
+		return nil, nil
+	case "strayhdr":
+		// (session-less) a stray in-session-looking packet: non-null session ID and sequence, flags set
+		if last := se.BMC.Last(); last != nil {
+			m := refbmc.BuildRsp(0x81, 0x07, 0, 0x20, last.RqSeq, 0, 0x3e, 0, []byte{1})
+			return refbmc.RMCP(refbmc.SessHdr(0x00, 0xa0a1a2a3, 9, m)), nil
+		}
+		return nil, nil
 	case "badsig":
 		if reply != nil && len(reply) > 20 {
 			m := append([]byte(nil), reply...)
